@@ -30,8 +30,8 @@ ASSUMPTIONS = ['state abstraction: the key holds everything an operation reads e
 BOUNDS = {'quick': {'depth': 3}, 'thorough': {'depth': 4, 'transition_cap_per_shard': 60000}}
 
 NANP = ((0, 0, 1),)          # the missing entry of the 'nan' initial states: RDM 0, conditions (0,1)
-RD_ALL = ('rid', 'grp', 'rname')
-PD_ALL = ('cid', 'name', 'cat', 'pgrp')
+RD_ALL = ('rid', 'grp', 'rname', 'rbig')
+PD_ALL = ('cid', 'name', 'cat', 'pgrp', 'big')
 
 
 # ----------------------------------------------------------------------------- model / invariant
